@@ -9,7 +9,8 @@ ID = "C09"
 GENERATORS = ["server"]
 PROP_FILE = "C09"
 CASE_DEPS = ["theories/CorrServer.vo", "Generated/GenServer.vo"]
-RULE = ("request sequences of 1-6 requests (write/read/diagnostic/listen-only/unknown function), unit ids from "
+RULE = ("histories on a live server object (delivered requests, plus hosted-set edits del context[u] / context[u] = new "
+        "between reads in 260 enumerated and 20% of the random multi-unit scenarios); request sequences of 1-6 requests (write/read/diagnostic/listen-only/unknown function), unit ids from "
         "{0,1,2,17,247,255} + hosted + random, tids from {0,1,0x1234,65535} + random, one per read / pipelined / "
         "grouped, against single and multi-unit contexts (hosted sets incl. 0, 247, 255; healthy, raising and "
         "NoSuchSlave-raising datastores), ignore_missing_slaves and broadcast_enable on/off; every front-end "
@@ -47,14 +48,22 @@ def make_case(sc):
                 nontrivial=bool(rec.delivered)), bad
 
 
-def suite_serve(tier, stream=STREAM, chk=CHK, multi_bias=0.5):
+def suite_serve(tier, stream=STREAM, chk=CHK, multi_bias=0.5, edit_prob=0.2):
     r = common.rng(stream)
     per = 100 if tier == "quick" else 800
     cases, broken = [], []
     for fe, fr in L.COMBOS:
+        scs = []
         for _ in range(per):
             sc = L.gen_scenario(r, fe, fr, multi_bias=multi_bias)
+            if r.random() < edit_prob:
+                sc = L.add_random_edits(r, sc)
+            scs.append(sc)
+        # enumerated histories that edit the hosted set of the live server object between reads
+        for sc in scs + L.edit_histories(fe, fr):
             c, bad = make_case(sc)
+            if sc.get("edits"):
+                c.kind += "/edit"
             cases.append(c)
             broken += ["%s: %s" % (b, sc) for b in bad]
     return Suite("serve", IMPORTS, chk, cases, shard=120), broken
